@@ -475,6 +475,11 @@ pub fn finish_request(rq: Request, id: usize, fin: &Finish, ob: &mut ReqObs) {
 }
 
 pub fn handle_request(mut rq: Request, id: usize, plan: &ReqPlan, obs: &SharedObs) {
+    if rq.url() == "/probe" {
+        // the runner's own liveness probe (see `probe`): answered, not part of the observation
+        let _ = rq.respond(Response::from_string("alive"));
+        return;
+    }
     let mut ob = describe_request(&rq);
     read_body(&mut rq, &plan.read, &mut ob);
     // record before finishing: finishing may block for ever
